@@ -311,6 +311,7 @@ func (s *seqRun) read(i, k int) {
 	s.note(opNote{kind: 'R', a: int32(i), b: int32(k)})
 	ch := m.sub.Chan()
 	for j := 0; j < k && !s.failed; j++ {
+		s.sl.g.progress.Add(1)
 		var e *event.TypeMuxEvent
 		got, ok := false, false
 		select {
@@ -583,22 +584,30 @@ func runSequential(c *ctx, mk func() (dispatcher, int), script func(*seqRun, *ev
 // awaitCase waits for the case body; a stall verdict or the case watchdog
 // abandon it (the body goroutines stay blocked; they only touch their own state).
 func awaitCase(c *ctx, g *guard, done chan struct{}) bool {
-	t := time.NewTimer(caseBound)
-	defer t.Stop()
-	select {
-	case <-done:
-		return true
-	case v := <-g.verdict:
-		if v.deadlock {
-			c.Violation("stall:"+v.op, v.reason, map[string]interface{}{"goroutines_inside_event_package": v.dump})
-		} else {
-			c.Inconclusive("%s case %d: %s stalled (%s)", c.Group, c.Index, v.op, v.reason)
+	tick := time.NewTicker(caseBound / 50)
+	defer tick.Stop()
+	last, lastChange := g.progress.Load(), time.Now()
+	for {
+		select {
+		case <-done:
+			return true
+		case v := <-g.verdict:
+			if v.deadlock {
+				c.Violation("stall:"+v.op, v.reason, map[string]interface{}{"goroutines_inside_event_package": v.dump})
+			} else {
+				c.Inconclusive("%s case %d: %s stalled (%s)", c.Group, c.Index, v.op, v.reason)
+			}
+			return false
+		case <-tick.C:
+			if p := g.progress.Load(); p != last {
+				last, lastChange = p, time.Now()
+			} else if time.Since(lastChange) > caseBound {
+				g.aborted.Store(true)
+				c.Inconclusive("%s case %d: case watchdog fired (no progress for %s)", c.Group, c.Index, caseBound)
+				return false
+			}
 		}
-	case <-t.C:
-		g.aborted.Store(true)
-		c.Inconclusive("%s case %d: case watchdog (%s) fired", c.Group, c.Index, caseBound)
 	}
-	return false
 }
 
 // ===========================================================================
@@ -713,7 +722,8 @@ func (e *concEnv) subscribe(se *sessRec, sl *slot) subscription {
 	return sub
 }
 
-func (se *sessRec) take(x *event.TypeMuxEvent) {
+func (se *sessRec) take(g *guard, x *event.TypeMuxEvent) {
+	g.progress.Add(1)
 	if x == nil {
 		se.badData++
 		return
@@ -742,7 +752,7 @@ func (e *concEnv) runSession(se *sessRec, sub subscription, r *ev.Rand, sl *slot
 				if !ok {
 					se.closedSeen = true
 				} else {
-					se.take(x)
+					se.take(e.g, x)
 				}
 			default:
 				polls++
@@ -756,7 +766,7 @@ func (e *concEnv) runSession(se *sessRec, sub subscription, r *ev.Rand, sl *slot
 		e.waitUntil(r, func() bool { return e.progress.Load() >= thr || e.postDone.Load() })
 	case "until-closed": // only with a stopper: blocking receive until Stop closes the channel
 		for x := range ch {
-			se.take(x)
+			se.take(e.g, x)
 		}
 		se.closedSeen = true
 	}
@@ -776,7 +786,7 @@ func (e *concEnv) runSession(se *sessRec, sub subscription, r *ev.Rand, sl *slot
 			if !ok {
 				se.closedSeen = true
 			} else {
-				se.take(x)
+				se.take(e.g, x)
 			}
 		default:
 			se.leftOpen = true
@@ -1262,7 +1272,7 @@ func TestC39(t *testing.T) {
 	done = timed("full")
 	// buffer overflow, even index: sequential script, odd index: concurrent (one case costs ~10 s under -race:
 	// every channel slot gets its own synchronisation object in the race runtime)
-	r.Cases("full", r.N(4, 64), func(c *ev.Case) {
+	r.Cases("full", r.N(4, 48), func(c *ev.Case) {
 		if c.Index%2 == 0 {
 			runSequential(fromCase(c), newReal, seqFull)
 			return
